@@ -556,6 +556,15 @@ impl Prune for FloatLinEq {
                 // Swap if they're reversed due to rounding errors
                 std::mem::swap(&mut new_min, &mut new_max);
             }
+
+            // An integer variable gets the slack the float side of the row has (see integer_bound_slack)
+            if let Val::ValI(_) = var_id.min(ctx) {
+                let slack = integer_bound_slack(&self.coefficients, &self.variables, i, self.constant, ctx) / coeff.abs();
+                if slack.is_finite() {
+                    new_min -= slack;
+                    new_max += slack;
+                }
+            }
             
             // FIX: Clamp computed bounds to current bounds to handle accumulated precision errors
             // When propagating tight equality constraints, the computed bounds may slightly
@@ -1346,6 +1355,43 @@ fn assigned_sum_float(coefficients: &[f64], variables: &[VarId], ctx: &Context) 
     Some(sum)
 }
 
+/// Slack of the bounds a float linear EQUALITY derives for an INTEGER variable (position `i`)
+/// from the other terms of the row.
+///
+/// The bounds of a float variable are quantised INWARDS to its step grid (`try_set_min` rounds
+/// up, `try_set_max` down, a bound within one step of the opposite one fixes the variable), so a
+/// float term may be up to one step away from the value the equality needs; the setters of a float
+/// variable absorb that with their tolerances, but an integer variable takes the exact ceiling /
+/// floor of the residual: `3*i + 0.75*x = 1.40625` at step 0.1 has x = 1.875 quantised to 1.9 and
+/// the residual for i is -0.00625, between two integers, so the row failed for every i although
+/// (0, 1.875) satisfies it. The same happens with no quantisation at all when the residual is an
+/// integer up to binary64 rounding (-3.0000000000000004).
+///
+/// The slack is one step of every float variable among the other terms (weighted by its
+/// coefficient) plus 8 ulps of the magnitude of the row; the caller divides it by |coefficient|.
+fn integer_bound_slack(coefficients: &[f64], variables: &[VarId], i: usize, constant: f64, ctx: &Context) -> f64 {
+    let mut steps = 0.0;
+    let mut magnitude = constant.abs();
+
+    for j in 0..variables.len() {
+        if j == i {
+            continue;
+        }
+        let c = coefficients[j].abs();
+        let (l, u) = match (variables[j].min(ctx), variables[j].max(ctx)) {
+            (Val::ValF(l), Val::ValF(u)) => (l, u),
+            (Val::ValI(l), Val::ValI(u)) => (l as f64, u as f64),
+            _ => return 0.0,
+        };
+        if let Var::VarF(interval) = &ctx.vars()[variables[j]] {
+            steps += c * interval.step;
+        }
+        magnitude += c * l.abs().max(u.abs());
+    }
+
+    steps + 8.0 * f64::EPSILON * magnitude
+}
+
 /// Helper to apply float_lin_eq propagation (extracted for reuse)
 fn prune_float_lin_eq(coefficients: &[f64], variables: &[VarId], constant: f64, ctx: &mut Context) -> Option<()> {
     for i in 0..variables.len() {
@@ -1418,6 +1464,15 @@ fn prune_float_lin_eq(coefficients: &[f64], variables: &[VarId], constant: f64, 
         // Handle floating-point rounding: ensure new_min <= new_max
         if new_min > new_max {
             std::mem::swap(&mut new_min, &mut new_max);
+        }
+
+        // An integer variable gets the slack the float side of the row has (see integer_bound_slack)
+        if let Val::ValI(_) = var_id.min(ctx) {
+            let slack = integer_bound_slack(coefficients, variables, i, constant, ctx) / coeff.abs();
+            if slack.is_finite() {
+                new_min -= slack;
+                new_max += slack;
+            }
         }
         
         // FIX: Clamp computed bounds to current bounds to handle accumulated precision errors
